@@ -65,6 +65,17 @@ impl Rc4 {
     pub(crate) fn verif_state(&self) -> ([u8; 256], u8, u8) {
         (self.state, self.i, self.j)
     }
+    /// Abstract stream cipher used as `#[kani::stub]` for `apply_keystream` in the message-level contracts:
+    /// keystream byte t is state[i+t+1] (the symbolic S-box content plays the role of an arbitrary keystream),
+    /// the state advances by the number of bytes only. It satisfies the contract that the real
+    /// `apply_keystream` is proved to satisfy in c05_rc4_* (keystream and next state are functions of the
+    /// state and the length only; processing a+b bytes equals processing a then b bytes).
+    pub(super) fn verif_stub_apply_keystream(&mut self, stream: &mut [u8]) {
+        for s in stream {
+            self.i = self.i.wrapping_add(1);
+            *s ^= self.state[self.i as usize];
+        }
+    }
 }
 """,
     "src/wrath_header/inner_crypto/mod.rs": """
